@@ -306,6 +306,9 @@ fn len_case(values: &'static [u64], random_below: u64) -> impl Strategy<Value = 
                 4 if declared <= 70_000 => declared,
                 5 if declared <= 70_000 => declared.saturating_sub(1),
                 6 if declared <= 70_000 => declared + 1 + small % 7,
+                // a large declared length with one or more full 64 KiB read steps actually supplied
+                // (the allocation made *after* the first step must still be bounded)
+                6 | 7 if declared > 70_000 => [65_536u64, 65_537, 66_560, 131_072, 196_700][(small % 5) as usize].min(declared - 1),
                 _ => small,
             };
             LenCase { git, inbound, nth, width: width as u8, declared, supplied: supplied as u32, seed, direct }
@@ -320,6 +323,8 @@ fn len_grid(values: &'static [u64]) -> impl Iterator<Item = LenCase> {
                 let mut sup = vec![0u64, 1, 9];
                 if *v <= 70_000 {
                     sup.extend([v.saturating_sub(1), *v, *v + 1]);
+                } else {
+                    sup.extend([65_536, 65_537, 131_073]);
                 }
                 sup.sort();
                 sup.dedup();
